@@ -14,7 +14,7 @@ import (
 
 type expansion struct {
 	text         string
-	consumedNext bool // the guard statement after the call was absorbed
+	consumedNext bool              // the guard statement after the call was absorbed
 	addImports   map[string]string // import path -> name: imports the caller's file needs in addition
 }
 
@@ -471,6 +471,28 @@ func expandSite(s *inlineSite, k int, overlay map[string][]byte) (*expansion, er
 				names = []*ast.Ident{ast.NewIdent("_")}
 			}
 			for _, nm := range names {
+				if _, isVariadic := f.Type.(*ast.Ellipsis); isVariadic {
+					// the rest of the arguments, as the slice the callee sees
+					if s.call.Ellipsis.IsValid() {
+						return nil, fmt.Errorf("variadic helper called with a spread slice")
+					}
+					st := sig.Params().At(sig.Params().Len() - 1).Type()
+					var rest []string
+					for _, a := range s.call.Args[argi:] {
+						rest = append(rest, printExpr(a))
+					}
+					val := typeStr(st) + "{" + strings.Join(rest, ", ") + "}"
+					if len(rest) == 0 {
+						val = "nil"
+					}
+					if nm.Name == "_" {
+						fmt.Fprintf(&prelude, "_ = %s\n", val)
+					} else {
+						fmt.Fprintf(&prelude, "var %s%s %s = %s\n_ = %s%s\n", nm.Name, suffix, typeStr(st), val, nm.Name, suffix)
+					}
+					argi = len(s.call.Args)
+					continue
+				}
 				if argi >= len(s.call.Args) {
 					return nil, fmt.Errorf("argument count mismatch")
 				}
